@@ -107,6 +107,10 @@ pub fn install_panic_hook() {
                 "<non-string panic>".to_string()
             };
             let loc = info.location().map(|l| format!("{}:{}", l.file(), l.line())).unwrap_or_default();
+            if GUARD_DEPTH.with(|d| d.get()) == 0 {
+                // not inside a guarded call into the emulator: the machinery itself panicked - never silent
+                eprintln!("HARNESS ERROR: the check's own code panicked: {} @ {}", msg, loc);
+            }
             LAST_PANIC.with(|p| *p.borrow_mut() = Some(format!("{} @ {}", msg, loc)));
         }));
     });
@@ -116,9 +120,16 @@ pub fn take_panic() -> String {
 }
 
 /// run `f`, turning a panic into Err(message @ file:line)
+thread_local! {
+    static GUARD_DEPTH: std::cell::Cell<u32> = std::cell::Cell::new(0);
+}
+
 pub fn guarded<T>(f: impl FnOnce() -> T) -> Result<T, String> {
     install_panic_hook();
-    match catch_unwind(AssertUnwindSafe(f)) {
+    GUARD_DEPTH.with(|d| d.set(d.get() + 1));
+    let r = catch_unwind(AssertUnwindSafe(f));
+    GUARD_DEPTH.with(|d| d.set(d.get() - 1));
+    match r {
         Ok(v) => Ok(v),
         Err(_) => {
             PANICS.fetch_add(1, std::sync::atomic::Ordering::Relaxed);
@@ -346,8 +357,11 @@ impl Emu {
         if is_bus_reg(a) {
             return;
         }
-        let io = matches!(a, 0xfee000..=0xfee0ff | 0xffff20..=0xffffe9);
-        if io && !is_peripheral_reg(a) {
+        // Everything except the peripheral registers goes through the bus write path - the path every writer
+        // outside the CPU core uses (the `u8:` control line, the MES services): an implementation that keeps
+        // copies of memory (prefetched words, decoded instructions, cached vectors) must notice these writes, and
+        // one that does is not accused of staleness the harness itself created by poking the arrays.
+        if !is_peripheral_reg(a) {
             if raw_get(&self.cpu.bus, a) != Some(v) && self.cpu.bus.write(a, v).is_err() {
                 raw_set(&mut self.cpu.bus, a, v);
             }
